@@ -221,10 +221,23 @@ pub fn check_program<G: Cv>(env: &Env<G>, prog: &Program, seed: u64) -> Out {
     let hs: Vec<G> = env.bp.H(padded, 1).cloned().collect();
     let asg = &rc.actual;
     let bb = env.pc.B_blinding;
+    // the opening below assumes the proof was built for the statement the reference model holds
+    // (same flattened weights): that is the case iff the proof satisfies the reference relations
+    let consistent = {
+        let w = chal("w");
+        let ch = crate::refverify::Challenges { y, z, u, x, w, rounds: us.clone() };
+        crate::refverify::refverify::<G>(&parts, rc, &run.comms, &env.pc, &env.bp, &ch).accept()
+    };
+    if !consistent {
+        out.precondition = Some("the honest proof does not satisfy the reference relations (C01/C02/C03's business): openings skipped");
+    }
     // ---- (1) witness-bearing commitments
     let mut opened: HashMap<&'static str, G::ScalarField> = HashMap::new();
     let ranges: Vec<(&'static str, &'static str, &'static str, usize, usize, usize)> = vec![("iota1", "omicron1", "sigma1", 0, n1, 0), ("iota2", "omicron2", "sigma2", n1, n, 3)];
     for (ri, ro, _rs, lo, hi, base) in ranges.iter() {
+        if !consistent {
+            break;
+        }
         if *base == 3 && n2 == 0 {
             for k in 3..6 {
                 if !parts.pts[k].is_zero() {
@@ -251,16 +264,6 @@ pub fn check_program<G: Cv>(env: &Env<G>, prog: &Program, seed: u64) -> Out {
             }
             None => out.bad.push((format!("{} = witness part + (fresh non-zero draw) * B_blinding", crate::proofparts::POINT_NAMES[*base + 1]), "no unused draw opens it".into())),
         }
-    }
-    // the opening below assumes the proof was built for the statement the reference model holds
-    // (same flattened weights): that is the case iff the proof satisfies the reference relations
-    let consistent = {
-        let w = chal("w");
-        let ch = crate::refverify::Challenges { y, z, u, x, w, rounds: us.clone() };
-        crate::refverify::refverify::<G>(&parts, rc, &run.comms, &env.pc, &env.bp, &ch).accept()
-    };
-    if !consistent {
-        out.precondition = Some("the honest proof does not satisfy the reference relations (C01/C02/C03's business): full opening skipped");
     }
     // ---- (2) masking vectors and everything built on them: only where the final scalars reveal l(x), r(x)
     if padded <= 4 && out.bad.is_empty() && consistent {
